@@ -41,7 +41,19 @@ SLICEABLE = ('par2d', 'par3dax', 'fan', 'cone')
 
 
 # ------------------------------------------------------------------ signatures
+def is_sheared(g):
+    """The two detector axes (explicit, or the images of the default axes under an init matrix) are not orthogonal."""
+    if g['mat'] and len(g['mat']) == 3:
+        cols = [[G.fq(g['mat'][i][j]) for i in range(3)] for j in (0, 2)]       # images of e_x and e_z
+        return sum(a * b for a, b in zip(*cols)) != 0
+    if len(g['ax']) == 2:
+        return sum(G.fq(a) * G.fq(b) for a, b in zip(*g['ax'])) != 0
+    return False
+
+
 def frame_class(g):
+    if is_sheared(g):
+        return 'matrix-sheared' if g['mat'] else 'explicit-sheared'
     if g['mat']:
         return 'matrix'
     given = g['e'] if g['cls'] in ('fan', 'cone') else g['p0']
@@ -376,6 +388,11 @@ TRIADS = [  # rational orthonormal triads (rows), last row = rotation axis
 ]
 
 
+SHEARED = [[(1, 0, 0), (F(3, 5), 0, F(4, 5))], [(0, 1, 0), (0, F(3, 5), F(4, 5))],
+           [(F(5, 13), F(12, 13), 0), (1, 0, 0)], [(0, 0, 1), (F(4, 5), 0, F(3, 5))],
+           [(0, 0, 1), (1, 0, 0)], [(F(-3, 5), F(4, 5), 0), (0, 1, 0)]]
+
+
 def rand_cs(rnd, hyps=None):
     a, b, c = rnd.choice([p for p in PYTH if hyps is None or p[2] in hyps])
     if rnd.random() < 0.5:
@@ -489,6 +506,8 @@ def random_case(rnd):
             e, a0, k = right_handed_frame(tri, rnd)
             g['ax'] = [V(*a0), V(*k)]
             g['p0'] = rand_small(rnd, 3)
+            if rnd.random() < 0.3:
+                g['ax'] = [V(*a) for a in rnd.choice(SHEARED)]
         return g, a, rand_params(rnd, 'flat', 3)
     hyps = (5, 13, 17, 25)
     helical = cls == 'cone' and rnd.random() < 0.4
@@ -520,6 +539,8 @@ def random_case(rnd):
             g['e'] = V(*e)
         else:
             g['p0'] = rand_small(rnd, 3)
+        if g['det']['kind'] == 'flat' and rnd.random() < 0.3:
+            g['ax'] = [V(*a) for a in rnd.choice(SHEARED)]     # linearly independent, not orthogonal, any handedness
     return g, a, rand_params(rnd, g['det']['kind'], 3)
 
 
